@@ -625,7 +625,7 @@ def _concurrent_shipped(ctx, rounds):
 def run(ctx):
     from lib import vtime
     vtime.install()
-    _sequential_random(ctx, 150 if ctx.quick else 4000, 25)
+    _sequential_random(ctx, 150 if ctx.quick else 15000, 25)
     _sequential_shipped(ctx)
-    _concurrent(ctx, 40 if ctx.quick else 1500)
-    _concurrent_shipped(ctx, 25 if ctx.quick else 800)
+    _concurrent(ctx, 40 if ctx.quick else 5000)
+    _concurrent_shipped(ctx, 25 if ctx.quick else 3000)
